@@ -6,6 +6,7 @@
 #include <etl/_algorithm/equal_range.hpp>
 #include <etl/_algorithm/lexicographical_compare.hpp>
 #include <etl/_algorithm/lower_bound.hpp>
+#include <etl/_algorithm/remove_if.hpp>
 #include <etl/_algorithm/rotate.hpp>
 #include <etl/_algorithm/upper_bound.hpp>
 #include <etl/_contracts/check.hpp>
@@ -548,27 +549,21 @@ constexpr auto swap(static_set<Key, Capacity, Compare>& lhs, static_set<Key, Cap
     lhs.swap(rhs);
 }
 
-// /// \brief Erases all elements that satisfy the predicate pred from the
-// container.
-// ///
-// /// https://en.cppreference.com/w/cpp/container/set/erase_if
-// template <typename Key, size_t Capacity, typename Compare, typename
-// Predicate> constexpr auto erase_if(static_set<Key, Capacity, Compare>&
-// c, Predicate pred) ->
-//     typename static_set<Key, Capacity, Compare>::size_type
-// {
-//     auto const old_size = c.size();
-//     for (auto i = c.begin(), last = c.end(); i != last;)
-//     {
-//         if (pred(*i)) { i = c.erase(i); }
-//         else
-//         {
-//             ++i;
-//         }
-//     }
-
-// return old_size - c.size();
-// }
+/// \brief Erases all elements that satisfy the predicate pred from the
+/// container.
+///
+/// https://en.cppreference.com/w/cpp/container/set/erase_if
+///
+/// \returns The number of erased elements.
+template <typename Key, size_t Capacity, typename Compare, typename Predicate>
+constexpr auto erase_if(static_set<Key, Capacity, Compare>& c, Predicate pred) ->
+    typename static_set<Key, Capacity, Compare>::size_type
+{
+    auto* const it = etl::remove_if(c.begin(), c.end(), pred);
+    auto const r   = static_cast<typename static_set<Key, Capacity, Compare>::size_type>(c.end() - it);
+    c.erase(it, c.end());
+    return r;
+}
 
 } // namespace etl
 
